@@ -263,6 +263,24 @@ fn raw(v: serde_json::Value) -> Box<RawValue> {
 
 impl jsonrpc::client::Transport for SimTransport {
     fn send_request(&self, req: jsonrpc::Request) -> Result<jsonrpc::Response, jsonrpc::Error> {
+        // crash points immediately before / after every node RPC (never while holding the node's own lock)
+        teos_common::verif::crashpoint("rpc:before");
+        let r = self.handle(req);
+        teos_common::verif::crashpoint("rpc:after");
+        r
+    }
+
+    fn send_batch(&self, _: &[jsonrpc::Request]) -> Result<Vec<jsonrpc::Response>, jsonrpc::Error> {
+        Err(jsonrpc::Error::EmptyBatch)
+    }
+
+    fn fmt_target(&self, f: &mut fmt::Formatter) -> fmt::Result {
+        write!(f, "simnode")
+    }
+}
+
+impl SimTransport {
+    fn handle(&self, req: jsonrpc::Request) -> Result<jsonrpc::Response, jsonrpc::Error> {
         let params: Vec<serde_json::Value> = match req.params {
             Some(p) => serde_json::from_str(p.get()).unwrap_or_default(),
             None => vec![],
@@ -307,14 +325,6 @@ impl jsonrpc::client::Transport for SimTransport {
             }
             other => Ok(rpc_err(-32601, &format!("method {other} not simulated"))),
         }
-    }
-
-    fn send_batch(&self, _: &[jsonrpc::Request]) -> Result<Vec<jsonrpc::Response>, jsonrpc::Error> {
-        Err(jsonrpc::Error::EmptyBatch)
-    }
-
-    fn fmt_target(&self, f: &mut fmt::Formatter) -> fmt::Result {
-        write!(f, "simnode")
     }
 }
 
